@@ -331,7 +331,23 @@ func Run(argv ...string) Result {
 	cmd.Env = env
 	var so, se bytes.Buffer
 	cmd.Stdout, cmd.Stderr = &so, &se
-	err := cmd.Run()
+	// a command that does not finish is a hang (C18): the limit is far above any real run (milliseconds)
+	limit := 20 * time.Second
+	if v, e := strconv.Atoi(os.Getenv("VP_RUN_TIMEOUT_S")); e == nil && v > 0 {
+		limit = time.Duration(v) * time.Second
+	}
+	err := cmd.Start()
+	if err == nil {
+		done := make(chan error, 1)
+		go func() { done <- cmd.Wait() }()
+		select {
+		case err = <-done:
+		case <-time.After(limit):
+			cmd.Process.Kill()
+			<-done
+			panic("hang: `goit " + strings.Join(args, " ") + "` did not finish within " + limit.String())
+		}
+	}
 	r := Result{Out: so.String()}
 	if err != nil {
 		if ee, ok := err.(*exec.ExitError); ok {
